@@ -417,8 +417,8 @@ def build(tier, seed):
             return dict(encode=encode, bad=bad, replay=replay, norm=norm, native=call, samples=samples, show=lambda a: f'{"EOMONTH" if eom else "EDATE"}({a["n"]}, {a["k"]})')
         return spec
     KR = 600 if tier == 'thorough' else 24
-    add('EDATE[start in 1900, short offsets]', sp_edate(False, 1900, 4), 'every whole serial 61.. of the year 1900 x month offsets -4..4 (results before 1900-01-01 give #NUM!)', cost=30, timeout=600)
-    add('EOMONTH[start in 1900, short offsets]', sp_edate(True, 1900, 4), 'every whole serial 61.. of the year 1900 x month offsets -4..4', cost=30, timeout=600)
+    add('EDATE[start in 1900, short offsets]', sp_edate(False, 1900, 3), 'every whole serial 61.. of the year 1900 x month offsets -3..3 (results before 1900-01-01 give #NUM!)', cost=30, timeout=600)
+    add('EOMONTH[start in 1900, short offsets]', sp_edate(True, 1900, 3), 'every whole serial 61.. of the year 1900 x month offsets -3..3', cost=30, timeout=600)
     for ycon in (1950, 1999, 2000, 2023, 2024, 2100, 9000):
         add(f'EDATE[start in {ycon}]', sp_edate(False, ycon), f'every whole serial of the year {ycon} (from 61) x every month offset -{KR}..{KR}: same day of the month moved, clipped to the month\'s end; '
             '#NUM! when not after 1900-01-01', cost=15, timeout=600)
